@@ -22,7 +22,7 @@ From TucModel Require Import Base.Bytes Base.ListX Model.Bounds Spec.Resolve Pro
   Model.CutBytes Spec.BytesMode Tie.Gen_cut_bytes Tie.Bridge_cut_bytes
   Spec.Fields Proofs.ScanSplit Tie.RsScan Tie.Gen_fill_fields Tie.Bridge_fill_fields Tie.Gen_compress_delimiter Tie.Bridge_compress_delimiter
   Proofs.C01More Tie.Gen_trim Tie.Bridge_trim
-  Tie.Gen_fb_try_from Tie.Bridge_fb_try_from Tie.Gen_print_field Tie.Bridge_print_field Tie.Gen_print_bof Tie.Bridge_print_bof Model.CutBytes Tie.Gen_print_rest Tie.Bridge_print_rest Tie.Gen_cut_lines Tie.Bridge_cut_lines Tie.Gen_read_and_cut_bytes Tie.Bridge_read_and_cut_bytes
+  Tie.Gen_fb_try_from Tie.Bridge_fb_try_from Tie.Gen_print_field Tie.Bridge_print_field Tie.Gen_print_bof Tie.Bridge_print_bof Model.CutBytes Tie.Gen_print_rest Tie.Bridge_print_rest Tie.Gen_cut_lines Tie.Bridge_cut_lines Tie.Gen_read_and_cut_bytes Tie.Bridge_read_and_cut_bytes Tie.Gen_get_last_bound Tie.Bridge_get_last_bound
   Proofs.C06 Proofs.PlainMulti Tie.RsCut Tie.Gen_cut_str Tie.Bridge_cut_str
   Model.Utf8 Model.CutLines Proofs.C05 Proofs.C03Full Proofs.C05Full Tie.RsLines Tie.Gen_read_and_cut_lines Tie.Bridge_read_and_cut_lines
   Proofs.C12 Proofs.C16 Tie.Gen_fill_regex Tie.Bridge_fill_regex Tie.Gen_trim_regex Tie.Bridge_trim_regex Tie.Gen_compress_regex Tie.Bridge_compress_regex
@@ -499,7 +499,15 @@ Theorem tie_C06_whole_byte_mode : forall (input : bytes) (o : opt),
   gen_read_and_cut_bytes input o = Ret (Some tt, spec_bytes (items (o_bounds o)) input).
 Proof. intros input o H1 H2 H3 H4. rewrite tie_read_and_cut_bytes. apply tie_C06_byte_mode_exact; assumption. Qed.
 
+(** C19/C03: what the translated [ForwardBounds::try_from] builds always has its last bound where it says:
+    the translated [get_last_bound] never reaches its "invariant error" panic *)
+Theorem tie_C19_last_bound_invariant : forall (u : ublist) (fb : gfb),
+  bounds_only (items u) <> [] -> gen_fb_try_from u = Ret (Some fb) ->
+  exists b, gen_get_last_bound fb = Ret b /\ In (Bound b) (items (fb_list fb)).
+Proof. exact tie_get_last_bound. Qed.
+
 Print Assumptions tie_try_into_range_spec.
+Print Assumptions tie_C19_last_bound_invariant.
 Print Assumptions tie_C06_whole_byte_mode.
 Print Assumptions tie_C05_buffered_reader.
 Print Assumptions tie_C13_pending_bounds_at_record_end.
